@@ -128,6 +128,29 @@ def wrRun (s : WrS) : List WrAct → Option WrS
   | [] => some s
   | a :: as => (wrStep s a).bind (wrRun · as)
 
+/-- the variant that starts expecting the OKAY only AFTER the WRTE went out (`_send_command` first, flag second): a
+    concurrent reader of the stream may handle the device's OKAY in between and finds it unexpected -/
+structure WrLate where
+  expecting : Bool := false
+  unacked : Nat := 0
+  sentNotMarked : Bool := false
+  unexpectedOkay : Bool := false   -- `_handle_message` raised 'received unexpected OKAY'
+
+inductive WrLateAct | send | mark | okay
+deriving DecidableEq, Repr
+
+def wrLateStep (s : WrLate) : WrLateAct → Option WrLate
+  | .send => if s.sentNotMarked = false ∧ s.expecting = false then some { s with unacked := s.unacked + 1, sentNotMarked := true } else none
+  | .mark => if s.sentNotMarked then some { s with expecting := true, sentNotMarked := false } else none
+  | .okay => if 0 < s.unacked then
+      (if s.expecting then some { s with expecting := false, unacked := s.unacked - 1 }
+       else some { s with unexpectedOkay := true, unacked := s.unacked - 1 })
+    else none
+
+def wrLateRun : WrLate → List WrLateAct → Option WrLate
+  | s, [] => some s
+  | s, a :: as => (wrLateStep s a).bind (wrLateRun · as)
+
 /-! ### reader election and wake-up (`_read_messages_until_true`) -/
 
 structure WkS where
